@@ -161,6 +161,52 @@ def late_accept_job(arg):
     return rep
 
 
+def accept_order_job(arg):
+    """The leaf's sub-package is accepted first and an ancestor afterwards (or the reverse): the ancestor must count."""
+    idx, depth, order, edit = arg
+    rep = core.Report("C14")
+    rep.evaluations = 1
+    R = "ao%d" % idx
+    kw0 = dict(leaf_const=7, leaf_var=3, na_const=5, na_var=1)
+    kw1 = dict(kw0)
+    kw1[edit] += 10
+    # the edited module is a *sibling* module that only the ancestor covers
+    f0, leafmod = files_for(R, depth, "from_import", **kw0)
+    f1, _ = files_for(R, depth, "from_import", **kw1)
+    comps = leafmod.split(".")
+    child = ".".join(comps[:-1]) + ".other_sub" if len(comps) > 2 else R + ".other_sub"
+    names = [child, R] if order == "child-first" else [R, child]
+    case = {"accept_order": True, "idx": idx, "depth": depth, "order": order, "edit": edit}
+    with core.Scratch("vp_c14o_") as td:
+        root = os.path.join(td, "code")
+        os.makedirs(root)
+        outs = []
+        for files in (f0, f1):
+            seg = {"mode": "impl", "root": root, "accept": names, "store": {"kind": "local", "dir": os.path.join(td, "store")},
+                   "steps": [{"write": files, "how": "import", "modules": [R + ".top"], "entry": {"style": "eval", "module": R + ".top", "func": "main", "args_src": "()"}}]}
+            o = core.fork_call(run_segment, seg, timeout=300)
+            if isinstance(o, core.JobFailed):
+                rep.inconclusive.append("worker: %r" % (o,))
+                return rep
+            outs.append(o["steps"][0])
+    a, b = outs
+    for x in (a, b):
+        if "setup_error" in x:
+            rep.inconclusive.append(x["setup_error"][-300:])
+            return rep
+        if x["result"][0] != "ok":
+            rep.violate("accepted %r in this order: evaluation raised %s(%s)" % (names, x["result"][1], x["result"][2][:200]), case, mechanism="accept-order")
+            return rep
+    rep.count("accept_order_cases")
+    if dict(a["syncs"][-1]) == dict(b["syncs"][-1]):
+        rep.violate("modules accepted in the order %r: editing %s of the leaf module %s (covered by %r) did not change any signature" % (names, edit, leafmod, R), case, mechanism="accept-order")
+    elif pickle.loads(b["result"][1]) != expected(**kw1):
+        rep.violate("modules accepted in the order %r: value after the edit is %s" % (names, b["result"][2][:120]), case, mechanism="accept-order")
+    else:
+        rep.nontriv(("c14order", depth, order, edit))
+    return rep
+
+
 def refused_job(arg):
     idx, depth, n_other = arg
     rep = core.Report("C14")
@@ -260,8 +306,14 @@ def run(tier, seed):
                 idx += 1
                 jobs.append(("late", (idx, depth, form, edit)))
 
+    for depth in (1, 2, 3, 4):
+        for order in ("child-first", "ancestor-first"):
+            for edit in ("leaf_const", "leaf_var"):
+                idx += 1
+                jobs.append(("order", (idx, depth, order, edit)))
+
     def dispatch(j):
-        return {"case": case_job, "refused": refused_job, "late": late_accept_job}[j[0]](j[1])
+        return {"case": case_job, "refused": refused_job, "late": late_accept_job, "order": accept_order_job}[j[0]](j[1])
 
     results = core.fork_map(dispatch, jobs, timeout=900)
     for j, r in zip(jobs, results):
@@ -282,7 +334,9 @@ def run(tier, seed):
 def replay(payload):
     rep = core.Report("C14")
     c = payload["case"]
-    if c.get("late_accept"):
+    if c.get("accept_order"):
+        rep.merge(accept_order_job((c["idx"], c["depth"], c["order"], c["edit"])))
+    elif c.get("late_accept"):
         rep.merge(late_accept_job((c["idx"], c["depth"], c["form"], c["edit"])))
     elif c.get("refused"):
         rep.merge(refused_job((c["idx"], c["depth"], c["n_other"])))
